@@ -141,7 +141,11 @@ void equiv_case(Tape &t, Ctx &c, const char *label, const TypeKeys &types, const
         if (!pt.get_optional<std::string>(ap + "coarse_enough")) ++g.nset;
         pt.put(ap + "coarse_enough", ce);
         g.log << " " << ap << "coarse_enough:=" << ce;
-        if (pt.get(ap + "ncycle", 1u) > 1 && pt.get(ap + "max_levels", 1000u) > 6) {
+        // with >= 2 near-null-space vectors a coarse level can have as many unknowns as the fine one (each aggregate gets
+        // `cols` coarse unknowns), so the hierarchy may have tens of thousands of levels and amg::cycle recurses once per
+        // level (stack overflow): cap the depth there as well (cost / resource guard, not an oracle change)
+        bool wide_ns = pt.get(ap + "coarsening.nullspace.cols", 0) >= 2;
+        if ((pt.get(ap + "ncycle", 1u) > 1 || wide_ns) && pt.get(ap + "max_levels", 1000u) > 6) {
             unsigned ml = static_cast<unsigned>(t.u(2, 6));
             if (!pt.get_optional<std::string>(ap + "max_levels")) ++g.nset;
             pt.put(ap + "max_levels", ml);
